@@ -377,22 +377,32 @@ Walk(fs, env, st) ==
     IF fs = <<>> THEN st
     ELSE LET f == Head(fs)
              w == IF env.ver = 1 THEN f.w1 ELSE f.w
-             val == IF env.pick[1] = st.i THEN Boundary(env.pick[2], w) ELSE Filler(st.i, w)
+             val == IF env.pick[1] = st.i
+                    THEN (IF env.pick[2] = "dup1"
+                          THEN Filler(IF env.rl > 0 /\ st.i >= env.rb THEN env.rb + ((st.i - env.rb) % env.rl) ELSE st.i, w)
+                          ELSE Boundary(env.pick[2], w))
+                    ELSE Filler(st.i, w)
              st2 == CASE f.t = "u" -> One(st, f.n, val, f.mk)
                       [] f.t = "cnt" -> One(st, f.n, BE(env.cnt, w), <<>>)
                       [] f.t = "const" -> One(st, f.n, f.v, f.mk)
-                      [] f.t = "res" -> One(st, f.n, IF env.pick[1] = st.i THEN Boundary(env.pick[2], w) ELSE f.v, [k \in 1 .. w |-> 255])
+                      [] f.t = "res" -> One(st, f.n, IF env.pick[1] = st.i /\ env.pick[2] # "dup1" THEN Boundary(env.pick[2], w) ELSE f.v, [k \in 1 .. w |-> 255])
                       [] f.t = "str0" -> One(st, f.n, StrBytes(st.i), <<>>)
                       [] f.t = "if" -> IF Holds(f.c, env.ver, env.flags) THEN Walk(f.f, env, st) ELSE [st EXCEPT !.i = st.i + Len(f.f)]
                       [] f.t = "rep" -> WalkRep(f.f, env, st, env.cnt)
-                      [] f.t = "kids" -> LET kb == [k \in 1 .. Len(f.v) |-> BoxBytes(f.v[k], [ver |-> 0, flags |-> 0, cnt |-> 1, pick |-> <<0, "none">>, hdr |-> "s32"])]
+                      [] f.t = "kids" -> LET kb == [k \in 1 .. Len(f.v) |-> BoxBytes(f.v[k], [ver |-> 0, flags |-> 0, cnt |-> 1, pick |-> <<0, "none">>, hdr |-> "s32", rb |-> 0, rl |-> 0])]
                                              RECURSIVE Cat(_, _) Cat(acc, k) == IF k > Len(kb) THEN acc
                                                                                 ELSE Cat([b |-> acc.b \o kb[k].b, m |-> acc.m \o kb[k].m, i |-> acc.i,
                                                                                      f |-> acc.f \o [x \in 1 .. Len(kb[k].f) |-> [n |-> Layout(f.v[k]).type \o "." \o kb[k].f[x].n, i |-> 0,
                                                                                                                                  o |-> kb[k].f[x].o + Len(acc.b) + 8, w |-> kb[k].f[x].w]]], k + 1)
                                          IN Cat(st, 1)
          IN Walk(Tail(fs), env, st2)
-WalkRep(fs, env, st, n) == IF n = 0 THEN st ELSE WalkRep(fs, env, Walk(fs, env, st), n - 1)
+\* env.rb / env.rl: index of the first field of the first iteration of the enclosing array and fields per iteration
+\* (used by the "dup1" kind: the picked field of a later entry takes the value of the same field of the FIRST entry,
+\*  giving value patterns such as A,B,A that distinct fillers never produce)
+WalkRep(fs, env, st, n) == IF n = 0 THEN st
+                           ELSE LET st1 == Walk(fs, env, st)
+                                    env2 == IF env.rl = 0 THEN [env EXCEPT !.rb = st.i, !.rl = st1.i - st.i] ELSE env
+                                IN WalkRep(fs, env2, Walk(fs, env2, st), n - 1)
 \* a whole box: size header (hdr "s32": 32-bit size; "s64": size = 1 + 64-bit largesize), [version, flags], fields
 BoxBytes(b, env) ==
     LET lay == Layout(b)
@@ -405,8 +415,8 @@ BoxBytes(b, env) ==
 (* ----------------------------------------------------------------- generator *)
 RECURSIVE SubsetSums(_)
 SubsetSums(S) == IF S = {} THEN {0} ELSE LET x == CHOOSE y \in S : TRUE  r == SubsetSums(S \ {x}) IN r \cup {s + x : s \in r}
-Kinds == {"zero", "ones", "max7f", "min80"}
-Env0(v, fl, c) == [ver |-> v, flags |-> fl, cnt |-> c, pick |-> <<0, "none">>, hdr |-> "s32"]
+Kinds == {"zero", "ones", "max7f", "min80", "dup1"}
+Env0(v, fl, c) == [ver |-> v, flags |-> fl, cnt |-> c, pick |-> <<0, "none">>, hdr |-> "s32", rb |-> 0, rl |-> 0]
 NFields(b, v, fl, c) == BoxBytes(b, Env0(v, fl, c)).nfields
 \* the container a box normally lives in (used for the nesting dimension)
 Parent(b) == CASE b \in {"tfhd", "tfdt", "trun", "sbgp", "subs", "saio", "saiz", "saiz-default"} -> "traf"
@@ -435,7 +445,7 @@ Instances(b) == LET lay == Layout(b) IN
 \* the byte string given to the decoders, and the canonical byte string an encoder must give back:
 \* a 64-bit size header is kept for mdat only, every other box is written with a 32-bit header
 \* (normalisation N1 of dontcare.json); reserved fields come back in any value (mask = 1).
-EnvOf(i) == [ver |-> i.ver, flags |-> i.flags, cnt |-> i.cnt, pick |-> i.pick, hdr |-> i.hdr]
+EnvOf(i) == [ver |-> i.ver, flags |-> i.flags, cnt |-> i.cnt, pick |-> i.pick, hdr |-> i.hdr, rb |-> 0, rl |-> 0]
 Wrapped(i, r) == IF i.wrap = "none" THEN r
                  ELSE [b |-> BE(8 + Len(r.b), 4) \o TypeCode(Parent(i.box)) \o r.b, m |-> Zeros(8) \o r.m, f |-> r.f]
 InputOf(i) == Wrapped(i, BoxBytes(i.box, EnvOf(i)))
